@@ -508,7 +508,12 @@ def one_run(tr, o, problem, case, opt, front_end, params, finish=False):
     rx = [float(v) for v in np.ravel(res.x)]
     rf = fnum(res.fun)
     tr.emit("return", x=[dy(v) for v in rx], fun=dy(rf), nfev=int(getattr(res, "nfev", 0) or 0),
-            complete=bool(mine) and len(mine) <= MAX_EVAL_EVENTS and params.get("workers", 1) != -1)
+            complete=bool(mine) and len(mine) <= MAX_EVAL_EVENTS and params.get("workers", 1) != -1,
+            success=bool(getattr(res, "success", True)),
+            # over ALL evaluations of this process (the logged ones may be truncated): was the returned
+            # point evaluated, and did some evaluation of it give the returned objective?
+            match=("pair" if any(m[0] == rx and abs(m[1] - rf) <= 1e-12 * (abs(rf) + abs(m[1])) for m in mine) else
+                   "x_only" if any(m[0] == rx for m in mine) else "none"))
     info["last_eval_is_returned"] = (mine[-1][0] == rx) if mine else None
     info["x0"] = [fnum_dy(r["v"]) for r in vrows]
     info["scipy_success"] = bool(getattr(res, "success", True))
